@@ -153,6 +153,10 @@ def slices(prop, tier, seed):
                                      max_n=3 if th else 2)))
         S.append(("S-time", W.s_time({"EDF": gp["EDF"]} if not th else gp, seed,
                                      max_n=2 if not th else 3)))
+    elif prop == "C19":
+        S.append(("S-closed", W.s_closed(g, seed)))
+        S.append(("S-closed-plan", W.s_closed({k: pp[k] for k in ("ILP", "TSG+drop",
+                                                                   "ILP+drop")}, seed)))
     elif prop == "C18":
         S += dag(g, g3, seed, th)
         S.append(("S-cond", W.s_cond(gp, seed, clusters=("1x2", "2p"),
@@ -176,6 +180,8 @@ REQUIRED = {
     "C06": ("cancellations", "graphs_finished", "dead_tasks"),
     "C07": ("conditional_completions",),
     "C18": ("offers", "offered_tasks"),
+    "C19": ("closed_loop_runs", "closed_loop_rereleases",
+            "runs_reaching_full_concurrency"),
     "C08": ("runs_with_rows_checked", "traces_accepted_by_reader", "missed_deadlines",
             "cancelled_graphs", "scheduler_rows"),
 }
